@@ -600,6 +600,20 @@ async fn direct(plan: Plan, world: Shared) -> RunOutput {
         }
         tokio::time::sleep(Duration::from_millis(quiet_at - now)).await;
     }
+    // A client with traffic of its own (a keep-alive, a periodic refresh of idle) may be in the
+    // middle of such an exchange at this very instant: give it a moment to settle back into idle
+    // before "is the server idling?" is sampled. (A client that is idling already — the normal
+    // case — passes straight through.)
+    for _ in 0..100 {
+        let settled = {
+            let w = world.lock().unwrap_or_else(|e| e.into_inner());
+            w.mpd.idle_waiting || w.end.is_some() || w.mpd.closed
+        };
+        if settled {
+            break;
+        }
+        tokio::time::sleep(Duration::from_millis(50)).await;
+    }
     let (quiescence_seq, idle_at_quiescence, ended) = {
         let mut w = world.lock().unwrap_or_else(|e| e.into_inner());
         let seq = w.log(Ev::Director("quiescence".into()));
